@@ -9,7 +9,7 @@
     the replay order is the stable sort of the drawing order by z-index, Transform/Clip/Fit move every object by the
     same map, after Fit(margin) every non-empty object lies within the margins and the size is tight. *)
 From Coq Require Import ZArith QArith Qabs Qminmax Qround List Bool.
-From CV Require Import Base.Dy Geom.Matrix Ctx.DashCheck Ctx.Context Ctx.Canvas.
+From CV Require Import Base.Dy Geom.Matrix Ctx.DashCheck Ctx.Context Ctx.Canvas Ctx.Spec.
 Import ListNotations.
 Open Scope Q_scope.
 
@@ -81,39 +81,7 @@ Definition cstate_tie (sl : Q) (g m : cstate) : bool * bool :=
   (style_eqb (cst g) (cst m) && csys_eqb (csysm g) (csysm m),
    mat_close sl (cview g) (cview m) && mat_close sl (ccoord g) (ccoord m)).
 
-(** * specification as point maps (K2) *)
-Definition pfn := qpt -> qpt.
-Definition padd (p q : qpt) : qpt := (fst p + fst q, snd p + snd q).
-Definition about (c : qpt) (f : pfn) : pfn :=
-  fun p => padd c (f (fst p - fst c, snd p - snd c)).
-
-(** geometric meaning of each view call *)
-Definition spec_view_op (o : op) : option pfn :=
-  match o with
-  | ComposeView m => Some (mdot m)
-  | Translate x y => Some (fun p => (fst p + x, snd p + y))
-  | ReflectX => Some (fun p => (- fst p, snd p))
-  | ReflectXAbout x => Some (fun p => (2 * x - fst p, snd p))
-  | ReflectY => Some (fun p => (fst p, - snd p))
-  | ReflectYAbout y => Some (fun p => (fst p, 2 * y - snd p))
-  | Rotate c s => Some (fun p => (c * fst p - s * snd p, s * fst p + c * snd p))
-  | RotateAbout c s x y => Some (about (x, y) (fun p => (c * fst p - s * snd p, s * fst p + c * snd p)))
-  | Scale sx sy => Some (fun p => (sx * fst p, sy * snd p))
-  | ScaleAbout sx sy x y => Some (about (x, y) (fun p => (sx * fst p, sy * snd p)))
-  | Shear sx sy => Some (fun p => (fst p + sx * snd p, sy * fst p + snd p))
-  | ShearAbout sx sy x y => Some (about (x, y) (fun p => (fst p + sx * snd p, sy * fst p + snd p)))
-  | _ => None
-  end.
-
-(** the four coordinate systems: origin in the bottom-left, bottom-right, top-right, top-left corner *)
-Definition spec_csv (W H : Q) (s : csys) : pfn :=
-  match s with
-  | CartI => fun p => p
-  | CartII => fun p => (W - fst p, snd p)
-  | CartIII => fun p => (W - fst p, H - snd p)
-  | CartIV => fun p => (fst p, H - snd p)
-  end.
-
+(** * specification as point maps (K2): [pfn], [spec_view_op], [spec_csv] are in Ctx/Spec.v *)
 Record sstate := mkSS { ss_st : style; ss_view : pfn; ss_coord : pfn; ss_sys : csys }.
 Record sitem := mkSI { si_z : Z; si_obj : obj; si_st : style; si_fn : pfn; si_b : rect }.
 Record spec := mkSpec { sp_cur : sstate; sp_path : ptok; sp_stack : list sstate; sp_z : Z; sp_W : Q; sp_H : Q;
@@ -129,7 +97,7 @@ Definition sp_set_path (s : spec) (p : ptok) : spec :=
 
 (** a point of an object drawn at (x,y) appears at CoordSystemView(view(p + coordView(x,y))) *)
 Definition spec_place (s : spec) (c : sstate) (x y : Q) : pfn :=
-  fun p => spec_csv (sp_W s) (sp_H s) (ss_sys c) (ss_view c (padd p (ss_coord c (x, y)))).
+  fun p => pnorm (spec_csv (sp_W s) (sp_H s) (ss_sys c) (ss_view c (pnorm (padd p (ss_coord c (x, y)))))).
 
 (** every path of a DrawPath call is drawn with the current style, dashes normalised for that path alone *)
 Definition spec_path_style (st : style) (p : pathin) : style :=
@@ -166,7 +134,7 @@ Definition spec_ctx_step (s : spec) (o : op) : spec :=
   | Some st => sp_with_cur s (ss_with_st c st)
   | None =>
   match spec_view_op o with
-  | Some f => sp_with_cur s (mkSS (ss_st c) (fun p => ss_view c (f p)) (ss_coord c) (ss_sys c))
+  | Some f => sp_with_cur s (mkSS (ss_st c) (fun p => ss_view c (pnorm (f p))) (ss_coord c) (ss_sys c))
   | None =>
   match o with
   | SetView m => sp_with_cur s (mkSS (ss_st c) (mdot m) (ss_coord c) (ss_sys c))
@@ -207,7 +175,7 @@ Definition spec_ctx_step (s : spec) (o : op) : spec :=
   | _ => s
   end end end.
 
-Definition si_move (f : pfn) (i : sitem) : sitem := mkSI (si_z i) (si_obj i) (si_st i) (fun p => f (si_fn i p)) (si_b i).
+Definition si_move (f : pfn) (i : sitem) : sitem := mkSI (si_z i) (si_obj i) (si_st i) (fun p => pnorm (f (si_fn i p))) (si_b i).
 
 Definition si_bounds (i : sitem) : rect :=
   if is_path (si_obj i) && has_stroke (si_st i) then rexpand (si_b i) (swidth (si_st i) / 2) else si_b i.
@@ -220,7 +188,7 @@ Definition si_box (i : sitem) : rect :=
       (qmax4 (fst p0) (fst p1) (fst p2) (fst p3)) (qmax4 (snd p0) (snd p1) (snd p2) (snd p3)).
 
 Definition spec_clip (s : spec) (r : rect) : spec :=
-  mkSpec (sp_cur s) (sp_path s) (sp_stack s) (sp_z s) (rW r) (rH r)
+  mkSpec (sp_cur s) (sp_path s) (sp_stack s) (sp_z s) (Qred (rW r)) (Qred (rH r))
          (map (si_move (fun p => (fst p - rx0 r, snd p - ry0 r))) (sp_items s)).
 
 Definition spec_fit_rect (s : spec) (margin : Q) : rect :=
